@@ -93,10 +93,14 @@ def run(ctx):
     ctx.log("random: %d trees (%d on reflect.StructOf types, %d on generated named types); %d named types in all"
             % (len(rnd), n_structof, len(rnd) - n_structof, len(table.decls)))
 
+    # sizes at which fixed-size scratch space ends (long strings, wide structs); prepared before the build: the structs
+    # with unexported fields become generated named types
+    ext = fam_dump.prepare(fam_dump.extreme_trees(), table, len(enum) + len(rnd) + 100000, named="needed")
     vh = ctx.build_vh(gen_files=table.gen_files(), name="vh")
 
     stats = fam_dump.new_stats()
     fam_dump.check_records(ctx, vh, enum + rnd, lambda rid: "enum" if rid < len(enum) else "rand", stats)
+    fam_dump.check_records(ctx, vh, ext, lambda rid: "extreme", stats, tag="ext")
     # 5. history schedule (one process, in order): the result must not depend on which types were dumped before
     hist = fam_dump.prepare(fam_dump.history_schedule(70 if quick else 140), table, len(enum) + len(rnd), named="needed")
     if any("tn" in r for r in hist):
